@@ -47,6 +47,8 @@ type AltInfo struct {
 	To     string `json:"to"`     // spelling used in alt
 	Value  S      `json:"value"`  // the value V (after the quoting layer)
 	Quoted bool   `json:"quoted"` // V written as a Go string literal in one of the two
+	Has2   bool   `json:"has2"`   // the value is written differently in alt (raw in one vector, quoted in the other)
+	Value2 S      `json:"value2"` // the value as written in alt when has2
 }
 
 type Obs struct {
